@@ -575,6 +575,9 @@ class AbstractRowWriter(object):
                 self._target_path = target.name
             except AttributeError:
                 self._target_path = "<io>"
+            if not isinstance(self._target_path, str) or not self._target_path:
+                # For example the file descriptor number of tempfile.TemporaryFile().
+                self._target_path = "<io>"
             self._target_stream = target
         self._location = errors.Location(self.target_path, has_cell=True)
 
